@@ -176,6 +176,11 @@ def run(task):
     for l in range(3, subL + 1):
         for w in itertools.product(sub, repeat=l):
             check("".join(w), "deep")
+    # nesting deeper than the interpreter's recursion limit, over the robust alphabet (only [C] or the first atom symbol)
+    root = "[C]" if "[C]" in alpha else (atoms[0] if atoms else None)
+    if root is not None and ti % 50 < 3:
+        for d in (500, 1000, 1500):
+            check((root + "[Branch3][P][P][P]") * d + root, "deep")
     r.extra["max_alphabet"] = len(A)
     if ti % 37 == 0:
         r.sample({"table": table, "alphabet_size": len(A), "atom_symbols": atoms[:6], "deep_bound": subL})
